@@ -6,9 +6,12 @@ import (
 	"fmt"
 	"math"
 	"math/big"
+	"net"
 	"net/netip"
+	"slices"
 	"sort"
 	"strconv"
+	"strings"
 	"testing"
 
 	"github.com/cilium/statedb"
@@ -248,6 +251,10 @@ func TestVerif_BlackBox(t *testing.T) {
 	r.Finish()
 }
 
+type str string
+
+func (s str) String() string { return string(s) }
+
 func TestVerif_Encoders(t *testing.T) {
 	r := vkit.Start(t, "C18", "encoders", "exploration", rule)
 	r.Require("values")
@@ -433,6 +440,115 @@ func TestVerif_Encoders(t *testing.T) {
 			tick()
 		}
 	}
+	// string keys and the key-set helpers built on them: the key of a string is its bytes (equal strings equal keys, different strings
+	// different keys, for any byte values incl. 0x00, 0xff and invalid UTF-8); a helper over a collection yields exactly the keys of
+	// its members; the parsers of addresses and prefixes give the key of the parsed value
+	{
+		keysOf := func(ks index.KeySet) []string {
+			var out []string
+			ks.Foreach(func(k index.Key) { out = append(out, string(k)) })
+			sort.Strings(out)
+			return slices.Compact(out)
+		}
+		strs := []string{"", "\x00", "\x00\x00", "\x01", "a", "a\x00", "a\x00b", "ab", "b", "\xff", "\xff\xfe", "\xc3\x28", "\xed\xa0\x80", "é", "日本", strings.Repeat("x", 300)}
+		for i := 0; i < 300; i++ {
+			b := make([]byte, rng.IntN(6))
+			for j := range b {
+				b[j] = []byte{0, 1, 'a', 'b', 0xff, 0xc3}[rng.IntN(6)]
+			}
+			strs = append(strs, string(b))
+		}
+		for _, v := range strs {
+			k := index.String(v)
+			k2, err := index.FromString(v)
+			if string(k) != v || err != nil || string(k2) != v || string(index.Stringer(str(v))) != v {
+				fail("string", "String(%q)=%x FromString=(%x,%v) Stringer=%x", v, k, k2, err, index.Stringer(str(v)))
+			}
+			tick()
+		}
+		for i := 0; i < 400; i++ {
+			var ss []string
+			var ts []str
+			m := map[string]int{}
+			for j, n := 0, rng.IntN(6); j < n; j++ {
+				v := strs[rng.IntN(len(strs))]
+				ss = append(ss, v)
+				ts = append(ts, str(v))
+				m[v] = j
+			}
+			want := slices.Clone(ss)
+			sort.Strings(want)
+			want = slices.Compact(want)
+			if want == nil {
+				want = []string{}
+			}
+			for name, got := range map[string][]string{
+				"StringSlice":   keysOf(index.StringSlice(ss)),
+				"StringerSlice": keysOf(index.StringerSlice(ts)),
+				"StringerSeq":   keysOf(index.StringerSeq(slices.Values(ts))),
+				"StringerSeq2": keysOf(index.StringerSeq2(func(y func(str, int) bool) {
+					for i, v := range ts {
+						if !y(v, i) {
+							return
+						}
+					}
+				})),
+				"Seq": keysOf(index.Seq(index.String, slices.Values(ss))),
+				"Seq2": keysOf(index.Seq2(index.String, func(y func(string, int) bool) {
+					for i, v := range ss {
+						if !y(v, i) {
+							return
+						}
+					}
+				})),
+				"StringMap": keysOf(index.StringMap(m)),
+			} {
+				if got == nil {
+					got = []string{}
+				}
+				if !slices.Equal(got, want) {
+					fail("keyset/"+name, "%s over %q yields the keys %q, want %q", name, ss, got, want)
+				}
+			}
+			tick()
+		}
+		for i := 0; i < 3000; i++ {
+			var a netip.Addr
+			if rng.IntN(2) == 0 {
+				var b [4]byte
+				binary.BigEndian.PutUint32(b[:], rng.Uint32()>>uint(rng.IntN(32)))
+				a = netip.AddrFrom4(b)
+			} else {
+				var b [16]byte
+				binary.BigEndian.PutUint64(b[:8], rng.Uint64()|1<<63)
+				binary.BigEndian.PutUint64(b[8:], rng.Uint64()>>uint(rng.IntN(64)))
+				a = netip.AddrFrom16(b)
+			}
+			k := index.NetIPAddr(a)
+			if ks, err := index.NetIPAddrString(a.String()); err != nil || !bytes.Equal(ks, k) {
+				fail("netipaddr-string", "NetIPAddrString(%q)=(%x,%v), NetIPAddr=%x", a.String(), ks, err, k)
+			}
+			if kn := index.NetIP(net.IP(a.AsSlice())); !bytes.Equal(kn, k) {
+				fail("netip", "NetIP(%v)=%x, NetIPAddr of the same address=%x", a, kn, k)
+			}
+			p := netip.PrefixFrom(a, rng.IntN(a.BitLen()+1))
+			if ks, err := index.NetIPPrefixString(p.String()); err != nil || !bytes.Equal(ks, index.NetIPPrefix(p)) {
+				fail("netipprefix-string", "NetIPPrefixString(%q)=(%x,%v), NetIPPrefix=%x", p.String(), ks, err, index.NetIPPrefix(p))
+			}
+			tick()
+		}
+		for _, bad := range []string{"", "10.0.0", "10.0.0.1/33", "::1/129", "x", "10.0.0.1/"} {
+			if k, err := index.NetIPPrefixString(bad); err == nil {
+				fail("netipprefix-string", "NetIPPrefixString(%q) is accepted with key %x", bad, k)
+			}
+			if bad != "::1/129" && bad != "10.0.0.1/33" {
+				if k, err := index.NetIPAddrString(bad); err == nil {
+					fail("netipaddr-string", "NetIPAddrString(%q) is accepted with key %x", bad, k)
+				}
+			}
+			tick()
+		}
+	}
 	// index.Set: the keys of a part.Set's elements (fixed-width integer element types): different elements, different keys
 	hostile := []int32{math.MinInt32, -65536, -2, -1, 0, 1, 0x7f, 0x80, 0x7ff, 0x800, 0xd7ff, 0xd800, 0xdfff, 0xe000, 0xfffd, 0xffff, 0x10000, 0x10ffff, 0x110000, math.MaxInt32}
 	setKeys := func(name string, n int, ks index.KeySet) {
@@ -600,6 +716,16 @@ func TestVerif_LPMKeys(t *testing.T) {
 		d, l := lpm.DecodeLPMKey(k)
 		if int(l) != p.Bits()+96 || len(d) != (int(l)+7)/8 {
 			r.Violation("lpmkey/netip-len", i, map[string]any{"message": fmt.Sprintf("NetIPPrefixToIndexKey(%v) -> len %d", p, l)})
+		}
+		// the 4-byte form of the same prefix: the IPv4 address masked to the prefix length, no offset
+		k4 := lpm.NetIPPrefix4ToIndexKey(p)
+		d4, l4 := lpm.DecodeLPMKey(k4)
+		m4 := p.Masked().Addr().As4()
+		if int(l4) != p.Bits() || !bytes.Equal(d4, m4[:(p.Bits()+7)/8]) {
+			r.Violation("lpmkey/netip4-roundtrip", i, map[string]any{"message": fmt.Sprintf("NetIPPrefix4ToIndexKey(%v)=%x decodes to (%x,%d), want (%x,%d)", p, k4, d4, l4, m4[:(p.Bits()+7)/8], p.Bits())})
+		}
+		if !bytes.Equal(k4, lpm.NetIPPrefix4ToIndexKey(p.Masked())) || !bytes.Equal(k4, lpm.EncodeLPMKey(m4[:], lpm.PrefixLen(p.Bits()))) {
+			r.Violation("lpmkey/netip4-mask", i, map[string]any{"message": fmt.Sprintf("NetIPPrefix4ToIndexKey(%v)=%x differs from the key of the masked prefix %x", p, k4, lpm.NetIPPrefix4ToIndexKey(p.Masked()))})
 		}
 		n++
 		r.Case(uint64(n), true)
